@@ -242,8 +242,8 @@ class PixCoord:
         coord : `PixCoord`
             The rotated coordinates (which is an independent copy).
         """
-        dx = self.x - center.x
-        dy = self.y - center.y
+        dx = np.subtract(self.x, center.x, dtype=float)
+        dy = np.subtract(self.y, center.y, dtype=float)
 
         # apply the rotation matrix element-wise so that coordinate
         # arrays of any dimension are rotated correctly
